@@ -25,7 +25,9 @@ MANIFEST = dict(
 MODULE = "IwModel.Props.C17"
 THEOREMS = [
     "IwModel.C17.unescape_safe", "IwModel.C17.unescape_two_pass", "IwModel.C17.unescape_shape_indep", "IwModel.C17.unescape_stores_within",
-    "IwModel.C17.unescape_cstring_safe", "IwModel.C17.parse_key_safe",
+    "IwModel.C17.unescape_cstring_safe", "IwModel.C17.parse_key_safe", "IwModel.C17.ptr_parse_safe", "IwModel.C17.ptr_parse_cstring_safe",
+    "IwModel.C17.ftoa_safe", "IwModel.C17.ftoa_old_overrun", "IwModel.C17.atoi2_safe", "IwModel.C17.afcmp_safe", "IwModel.C17.hex2bin_safe",
+    "IwModel.C17.gen_side_conditions",
 ]
 
 H = lambda b: binascii.hexlify(bytes(b)).decode() or "-"
